@@ -22,6 +22,7 @@ CODES = {
     11: "a forwarded exchange never had its response written (T11_inflight_completes)",
     12: "what a client received differs from what the proxy wrote (T11_inflight_completes)",
     13: "a closing response was written but the client did not see the socket closed (T11_inflight_completes)",
+    14: "a tunnel (CONNECT 2xx / 101) was opened although closing had been observed before its dial / round trip returned (T11_no_new_work)",
 }
 
 
